@@ -64,6 +64,12 @@ impl Tracked {
     }
 }
 
+impl PartialEq for Tracked {
+    fn eq(&self, o: &Self) -> bool {
+        self.val == o.val
+    }
+}
+
 impl Clone for Tracked {
     fn clone(&self) -> Self {
         Tracked::new(self.val)
@@ -151,6 +157,33 @@ impl<T, const N: usize> FromColorUnclamped<ProbeA<T, N>> for ProbeA<T, N> {
         a
     }
 }
+impl<T, const N: usize> FromColorUnclamped<ProbeB<T, N>> for ProbeB<T, N> {
+    fn from_color_unclamped(b: ProbeB<T, N>) -> Self {
+        tick();
+        b
+    }
+}
+// what every real color also has (a bound on one of these must not stop the probes from building)
+impl<T, const N: usize> core::fmt::Debug for ProbeA<T, N> {
+    fn fmt(&self, f: &mut core::fmt::Formatter<'_>) -> core::fmt::Result {
+        write!(f, "ProbeA<{N}>")
+    }
+}
+impl<T, const N: usize> core::fmt::Debug for ProbeB<T, N> {
+    fn fmt(&self, f: &mut core::fmt::Formatter<'_>) -> core::fmt::Result {
+        write!(f, "ProbeB<{N}>")
+    }
+}
+impl<T: PartialEq, const N: usize> PartialEq for ProbeA<T, N> {
+    fn eq(&self, o: &Self) -> bool {
+        self.c == o.c
+    }
+}
+impl<T: PartialEq, const N: usize> PartialEq for ProbeB<T, N> {
+    fn eq(&self, o: &Self) -> bool {
+        self.c == o.c
+    }
+}
 impl<T, const N: usize> Clamp for ProbeA<T, N> {
     fn clamp(self) -> Self {
         self
@@ -207,9 +240,24 @@ pub enum CrashEntry {
     UnclampedGuardDrop,
     /// `then_into_color_mut` panics on element k
     ThenInto,
+    // ---- the other copy of the guard code (from_into_color_unclamped_mut.rs is a hand-kept twin) and the
+    // ---- placements a depth-1 clamped guard does not reach
+    UnclampedGuardRestore,
+    /// clamped guard, `then_into_color_unclamped_mut` panics on element k
+    ThenIntoUnclamped,
+    /// unclamped guard, `then_into_color_mut` panics on element k
+    UnclampedThenInto,
+    SingleFromColorUnclampedMut,
+    /// single-value guard: the restoring conversion in `Drop` panics
+    SingleGuardDrop,
+    /// single-value unclamped guard: the restoring conversion in `restore()` panics
+    SingleUnclampedGuardRestore,
+    /// two live guards (outer A->B, inner B->A on what the outer derefs to); the inner guard's restoring
+    /// conversion panics on element k, and the outer guard is dropped by the same unwinding
+    NestedInnerDrop,
 }
 
-pub const ENTRIES: [CrashEntry; 13] = [
+pub const ENTRIES: [CrashEntry; 20] = [
     CrashEntry::MapVecInPlace,
     CrashEntry::MapSliceBoxInPlace,
     CrashEntry::VecFromColor,
@@ -223,6 +271,13 @@ pub const ENTRIES: [CrashEntry; 13] = [
     CrashEntry::GuardRestore,
     CrashEntry::UnclampedGuardDrop,
     CrashEntry::ThenInto,
+    CrashEntry::UnclampedGuardRestore,
+    CrashEntry::ThenIntoUnclamped,
+    CrashEntry::UnclampedThenInto,
+    CrashEntry::SingleFromColorUnclampedMut,
+    CrashEntry::SingleGuardDrop,
+    CrashEntry::SingleUnclampedGuardRestore,
+    CrashEntry::NestedInnerDrop,
 ];
 
 impl CrashEntry {
@@ -241,7 +296,17 @@ impl CrashEntry {
             CrashEntry::GuardRestore => "guard restore()",
             CrashEntry::UnclampedGuardDrop => "unclamped guard Drop",
             CrashEntry::ThenInto => "then_into_color_mut",
+            CrashEntry::UnclampedGuardRestore => "unclamped guard restore()",
+            CrashEntry::ThenIntoUnclamped => "then_into_color_unclamped_mut",
+            CrashEntry::UnclampedThenInto => "then_into_color_mut on an unclamped guard",
+            CrashEntry::SingleFromColorUnclampedMut => "single-value from_color_unclamped_mut",
+            CrashEntry::SingleGuardDrop => "single-value guard Drop",
+            CrashEntry::SingleUnclampedGuardRestore => "single-value unclamped guard restore()",
+            CrashEntry::NestedInnerDrop => "inner guard Drop under a live outer guard",
         }
+    }
+    fn single(self) -> bool {
+        matches!(self, CrashEntry::SingleFromColorMut | CrashEntry::SingleFromColorUnclampedMut | CrashEntry::SingleGuardDrop | CrashEntry::SingleUnclampedGuardRestore)
     }
     /// The caller keeps owning the buffer (slice / single-value entry points).
     fn caller_owns(self) -> bool {
@@ -279,13 +344,25 @@ pub fn enumerate() -> Vec<CrashPlan> {
     for (ncomp, max_len) in [(3u8, 6u8), (1, 3), (2, 3), (4, 3)] {
         for entry in ENTRIES {
             for len in 0..=max_len {
-                if entry == CrashEntry::SingleFromColorMut && len != 1 {
+                if entry.single() && len != 1 {
                     continue;
                 }
                 v.push(CrashPlan { entry, len, k: None, extra_cap: len % 3, ncomp });
                 for k in 0..len {
                     v.push(CrashPlan { entry, len, k: Some(k), extra_cap: (len + k) % 3, ncomp });
                 }
+            }
+        }
+    }
+    // a few lengths around chunk sizes (three components), crash at the first, a middle and the last element
+    for entry in ENTRIES {
+        if entry.single() {
+            continue;
+        }
+        for len in [8u8, 9, 16, 17, 33] {
+            v.push(CrashPlan { entry, len, k: None, extra_cap: len % 3, ncomp: 3 });
+            for k in [0, len / 2, len - 1] {
+                v.push(CrashPlan { entry, len, k: Some(k), extra_cap: (len + k) % 3, ncomp: 3 });
             }
         }
     }
@@ -402,7 +479,7 @@ fn execute_n<const N: usize>(plan: &CrashPlan, ctx: &mut Ctx<'_>) {
                 b4.1 == after.1 && b4.2 == after.2 && (b4.2 == 0 || b4.0 == after.0)
             })
         }
-        CrashEntry::SliceFromColorMut | CrashEntry::SliceFromColorUnclampedMut | CrashEntry::SingleFromColorMut => {
+        CrashEntry::SliceFromColorMut | CrashEntry::SliceFromColorUnclampedMut | CrashEntry::SingleFromColorMut | CrashEntry::SingleFromColorUnclampedMut => {
             let mut buf = buf;
             arm(k);
             let entry = plan.entry;
@@ -410,20 +487,26 @@ fn execute_n<const N: usize>(plan: &CrashPlan, ctx: &mut Ctx<'_>) {
                 match entry {
                     CrashEntry::SliceFromColorMut => {
                         let g = <[ProbeB<Tracked, N>]>::from_color_mut(&mut buf[..]);
-                        let same = g.len() == before.1 && (g.len() == 0 || g.as_ptr() as usize == before.0);
+                        let same = { let view: &[ProbeB<Tracked, N>] = &g; view.len() == before.1 && (view.is_empty() || view.as_ptr() as usize == before.0) };
                         // leave the converted state behind; restoring is GuardDrop's business
                         core::mem::forget(g);
                         same
                     }
                     CrashEntry::SliceFromColorUnclampedMut => {
                         let g = <[ProbeB<Tracked, N>]>::from_color_unclamped_mut(&mut buf[..]);
-                        let same = g.len() == before.1 && (g.len() == 0 || g.as_ptr() as usize == before.0);
+                        let same = { let view: &[ProbeB<Tracked, N>] = &g; view.len() == before.1 && (view.is_empty() || view.as_ptr() as usize == before.0) };
+                        core::mem::forget(g);
+                        same
+                    }
+                    CrashEntry::SingleFromColorUnclampedMut => {
+                        let g = <ProbeB<Tracked, N>>::from_color_unclamped_mut(&mut buf[0]);
+                        let same = { let view: &ProbeB<Tracked, N> = &g; view as *const ProbeB<Tracked, N> as usize == before.0 };
                         core::mem::forget(g);
                         same
                     }
                     _ => {
                         let g = <ProbeB<Tracked, N>>::from_color_mut(&mut buf[0]);
-                        let same = (&*g) as *const ProbeB<Tracked, N> as usize == before.0;
+                        let same = { let view: &ProbeB<Tracked, N> = &g; view as *const ProbeB<Tracked, N> as usize == before.0 };
                         core::mem::forget(g);
                         same
                     }
@@ -432,7 +515,16 @@ fn execute_n<const N: usize>(plan: &CrashPlan, ctx: &mut Ctx<'_>) {
             kept = Some(buf);
             r
         }
-        CrashEntry::GuardDrop | CrashEntry::GuardRestore | CrashEntry::UnclampedGuardDrop | CrashEntry::ThenInto => {
+        CrashEntry::GuardDrop
+        | CrashEntry::GuardRestore
+        | CrashEntry::UnclampedGuardDrop
+        | CrashEntry::ThenInto
+        | CrashEntry::UnclampedGuardRestore
+        | CrashEntry::ThenIntoUnclamped
+        | CrashEntry::UnclampedThenInto
+        | CrashEntry::SingleGuardDrop
+        | CrashEntry::SingleUnclampedGuardRestore
+        | CrashEntry::NestedInnerDrop => {
             let mut buf = buf;
             let entry = plan.entry;
             arm(None);
@@ -456,12 +548,60 @@ fn execute_n<const N: usize>(plan: &CrashPlan, ctx: &mut Ctx<'_>) {
                         drop(g);
                         true
                     }
+                    CrashEntry::UnclampedGuardRestore => {
+                        let g = <[ProbeB<Tracked, N>]>::from_color_unclamped_mut(&mut buf[..]);
+                        arm(k);
+                        let r: &mut [ProbeA<Tracked, N>] = g.restore();
+                        r.len() == before.1 && (r.is_empty() || r.as_ptr() as usize == before.0)
+                    }
+                    CrashEntry::ThenIntoUnclamped => {
+                        let g = <[ProbeB<Tracked, N>]>::from_color_mut(&mut buf[..]);
+                        arm(k);
+                        let g2 = g.then_into_color_unclamped_mut::<[ProbeA<Tracked, N>]>();
+                        let same = { let view: &[ProbeA<Tracked, N>] = &g2; view.len() == before.1 && (view.is_empty() || view.as_ptr() as usize == before.0) };
+                        arm(None);
+                        drop(g2);
+                        same
+                    }
+                    CrashEntry::UnclampedThenInto => {
+                        let g = <[ProbeB<Tracked, N>]>::from_color_unclamped_mut(&mut buf[..]);
+                        arm(k);
+                        let g2 = g.then_into_color_mut::<[ProbeA<Tracked, N>]>();
+                        let same = { let view: &[ProbeA<Tracked, N>] = &g2; view.len() == before.1 && (view.is_empty() || view.as_ptr() as usize == before.0) };
+                        arm(None);
+                        drop(g2);
+                        same
+                    }
+                    CrashEntry::SingleGuardDrop => {
+                        let g = <ProbeB<Tracked, N>>::from_color_mut(&mut buf[0]);
+                        arm(k);
+                        drop(g);
+                        true
+                    }
+                    CrashEntry::SingleUnclampedGuardRestore => {
+                        let g = <ProbeB<Tracked, N>>::from_color_unclamped_mut(&mut buf[0]);
+                        arm(k);
+                        let r: &mut ProbeA<Tracked, N> = g.restore();
+                        r as *mut ProbeA<Tracked, N> as usize == before.0
+                    }
+                    CrashEntry::NestedInnerDrop => {
+                        let mut outer = <[ProbeB<Tracked, N>]>::from_color_mut(&mut buf[..]);
+                        {
+                            let on: &mut [ProbeB<Tracked, N>] = &mut outer;
+                            let inner = <[ProbeA<Tracked, N>]>::from_color_mut(on);
+                            arm(k);
+                            drop(inner); // the restoring conversion A -> B panics; `outer` is dropped by the same unwinding
+                        }
+                        arm(None);
+                        drop(outer);
+                        true
+                    }
                     _ => {
                         let g = <[ProbeB<Tracked, N>]>::from_color_mut(&mut buf[..]);
                         arm(k);
                         // ProbeA<Tracked, N> -> ProbeB<Tracked, N> -> ProbeA<Tracked, N> again, in place, without an extra restoring hop
                         let g2 = g.then_into_color_mut::<[ProbeA<Tracked, N>]>();
-                        let same = g2.len() == before.1 && (g2.len() == 0 || g2.as_ptr() as usize == before.0);
+                        let same = { let view: &[ProbeA<Tracked, N>] = &g2; view.len() == before.1 && (view.is_empty() || view.as_ptr() as usize == before.0) };
                         arm(None);
                         drop(g2);
                         same
@@ -528,7 +668,7 @@ fn execute_n<const N: usize>(plan: &CrashPlan, ctx: &mut Ctx<'_>) {
         if !fired {
             // values moved as the conversions say: forgotten open guard = ProbeB<Tracked, N> layout (z, x, y);
             // dropped / restored / round-tripped = back to (x, y, z)
-            let converted = matches!(plan.entry, CrashEntry::SliceFromColorMut | CrashEntry::SliceFromColorUnclampedMut | CrashEntry::SingleFromColorMut);
+            let converted = matches!(plan.entry, CrashEntry::SliceFromColorMut | CrashEntry::SliceFromColorUnclampedMut | CrashEntry::SingleFromColorMut | CrashEntry::SingleFromColorUnclampedMut);
             let expect: Vec<u32> = expect_values::<N>(len, converted);
             let got: Vec<u32> = s.iter().map(|x| x.1).collect();
             if got != expect {
